@@ -16,15 +16,24 @@ level and hash function:
   C11_recoverable (def) / C11_recoverable_false
                           the full statement is FALSE: equal content under two keys, delete one, commit, two GC passes
                           (open finding C11-F2); the same history with different values is recoverable (example)
-Not proved here: that a commit batch stores every node (`StoredAll` after commit) and that GC never deletes a node of
-the current trie when no two positions have equal content — see notes/C11.md; both are checked by the correspondence run
-and the reopen oracle on every history.
+  C11_recoverable_partial MAIN (what is proved of the full statement): for EVERY history of Update / Delete / Root() /
+                          Commit(any collapse level) — updates and deletes of keys whose subtrees were collapsed to
+                          references are resolved on demand through storage — that ends committed, the trie reopened
+                          from (root hash, weight) is observationally identical to the live one: same weight and, for
+                          every block, the same owner and the same proof bytes; `C11_answers_are_spec`: these common
+                          answers are the spec's (owner by cumulative weight in key order, honest proof, verifies to the
+                          root). Hypotheses: no GC pass and no rollback in the history (`HOp.plain`), 32-byte keys and
+                          non-empty values, sizes/weights below 2^64 (`PTOK`) and collision-freeness among the nodes of
+                          each committed spec trie (`HashInj`, relative — not global — injectivity).
+Not proved: GC safety (that no pass deletes a node of the last committed trie when no two positions ever hold nodes with
+equal hash) — the hypothesis of the partial theorem is therefore "no GC pass", which is stronger than the complement of
+the F2 matcher; see notes/C11.md. GC is checked by the reopen oracle and the correspondence run on every history.
 -/
 import Verif.Lemmas.WmptOps
 import Verif.Lemmas.WmptCommit
 import Verif.Lemmas.WmptReopen
 import Verif.Lemmas.WmptSpec
-import Verif.Model.WmptHistory
+import Verif.Lemmas.WmptHistoryInv
 import Verif.Model.WmptToy
 namespace Verif.Props.C11
 open Verif.Wmpt
@@ -84,6 +93,51 @@ theorem reopen_answers (H : Bytes → Bytes) (hlen : ∀ x, (H x).length = 32) (
   rw [owner_eq_ownerSpec t b hb1 hb] at ho
   exact ⟨k, v, ho, hp, hv⟩
 
+def keyA : List Nib := List.replicate 64 1
+def keyD : List Nib := 2 :: List.replicate 63 4
+
+/-- MAIN: histories of updates / deletes / hash reads / commits at any collapse level, ending committed, are recoverable:
+    the reopened trie is observationally identical to the live one. -/
+theorem C11_recoverable_partial (H : Bytes → Bytes) (hlen : ∀ x, (H x).length = 32) (ops : List HOp)
+    (hall : ∀ op ∈ ops, op.plain ∧ op.wf)
+    (hok : ∀ p q, ops = p ++ q → RepOps.PTOK (specRun p))
+    (hinj : ∀ p lvl q, ops = p ++ .commit lvl :: q → HashInj H (fun x => PT.Sub x (specRun p)))
+    (hd : (hrun H ops).t.root.dirty = false) :
+    sameAnswers H (reopen H (hrun H ops).t) (hrun H ops).t :=
+  commit_recoverable hlen ops hall hok hinj hd (hok ops [] (by simp))
+
+/-- …and the common answers are those of the spec trie of the history: total weight, root hash, and for every block
+    the owner by cumulative weight in key order with the honest proof, which verifies to the root hash -/
+theorem C11_answers_are_spec (H : Bytes → Bytes) (hlen : ∀ x, (H x).length = 32) (ops : List HOp)
+    (hall : ∀ op ∈ ops, op.plain ∧ op.wf)
+    (hok : ∀ p q, ops = p ++ q → RepOps.PTOK (specRun p))
+    (hinj : ∀ p lvl q, ops = p ++ .commit lvl :: q → HashInj H (fun x => PT.Sub x (specRun p)))
+    (hd : (hrun H ops).t.root.dirty = false) :
+    (hrun H ops).t.weight = (specRun ops).weight ∧
+    ((specRun ops).weight ≠ 0 → (rootHash H (hrun H ops).t).2 = PT.hash H (specRun ops)) ∧
+    ∀ b, 1 ≤ b → b ≤ (specRun ops).weight →
+      ∃ k v key, ownerSpec (specRun ops).entries b = some (k, v) ∧ RepMore.keybytesToHex key = k ∧ key.length = 32 ∧
+        (blockProof H (reopen H (hrun H ops).t) b).2 = .ok (key, Cbor.encTrie (((specRun ops).proofPairs H b).map Cbor.encBase)) ∧
+        (blockProof H (hrun H ops).t b).2 = .ok (key, Cbor.encTrie (((specRun ops).proofPairs H b).map Cbor.encBase)) ∧
+        verifyPairs H (((specRun ops).proofPairs H b).map PairD.ok) b = .ok ((rootHash H (hrun H ops).t).2, v) := by
+  obtain ⟨h1, _, h3, h4⟩ := commit_recoverable_spec hlen ops hall hok hinj hd (hok ops [] (by simp))
+  exact ⟨h1, h3, h4⟩
+
+set_option maxRecDepth 1000000 in
+/-- non-vacuity: a history with a commit, an update through the collapsed reference, a hash read and a second commit
+    satisfies the structural hypotheses, ends committed and is recoverable (toy hash, `decide`) -/
+example :
+    let ops : List HOp := [.upd keyA [1, 0xee] 2, .upd keyD [2, 0xee] 3, .commit 1, .upd keyA [7] 4, .root, .commit 0]
+    (∀ op ∈ ops, op.plain ∧ op.wf) ∧ (hrun toyH ops).t.root.dirty = false ∧
+      sameAnswers toyH (reopen toyH (hrun toyH ops).t) (hrun toyH ops).t ∧ (hrun toyH ops).t.weight = 7 := by
+  refine ⟨?_, ?_, ?_, ?_⟩
+  · intro op hop
+    simp only [List.mem_cons, List.not_mem_nil, or_false] at hop
+    rcases hop with h | h | h | h | h | h <;> subst h <;> simp [HOp.plain, HOp.wf, keyA, keyD]
+  · decide
+  · decide
+  · decide
+
 /-! ### the full statement and its refutation (open finding C11-F2) -/
 
 def HOp.keyOK : HOp → Prop
@@ -99,9 +153,6 @@ def C11_recoverable : Prop :=
     (hrun H ops).t.root.dirty = false →
     ¬ CollisionIn H (putPreimages H (hrun H ops).puts) →
     sameAnswers H (reopen H (hrun H ops).t) (hrun H ops).t
-
-def keyA : List Nib := List.replicate 64 1
-def keyD : List Nib := 2 :: List.replicate 63 4
 
 /-- two keys with byte-equal (value, weight); delete one; commit; two GC passes -/
 def opsF2 : List HOp :=
